@@ -28,9 +28,9 @@ type statsEngine struct {
 	valid map[key.TargetID]bool
 }
 
-func (e *statsEngine) Events() *event.System             { return e.ev }
-func (e *statsEngine) IsValid(t key.TargetID) bool       { return e.valid[t] }
-func (e *statsEngine) Stats(t key.TargetID) *info.Stats  { return e.attr.Stats(t) }
+func (e *statsEngine) Events() *event.System            { return e.ev }
+func (e *statsEngine) IsValid(t key.TargetID) bool      { return e.valid[t] }
+func (e *statsEngine) Stats(t key.TargetID) *info.Stats { return e.attr.Stats(t) }
 
 type statsWorld struct {
 	uid     int
@@ -46,7 +46,9 @@ type statsWorld struct {
 	dk      []model.DamageType
 }
 
-func (w *statsWorld) name(n int64) key.Modifier { return key.Modifier(fmt.Sprintf("vs%d_%d", w.uid, n)) }
+func (w *statsWorld) name(n int64) key.Modifier {
+	return key.Modifier(fmt.Sprintf("vs%d_%d", w.uid, n))
+}
 
 func pairs(t term.T) [][2]term.T {
 	out := [][2]term.T{}
